@@ -47,7 +47,8 @@ import sys
 import tempfile
 from concurrent.futures import ThreadPoolExecutor
 
-from .. import common, exprs
+from .. import common, exprs, regen
+from . import c11_config as CC
 from ..common import bits_float
 from ..gen import rules as GR
 
@@ -822,7 +823,7 @@ def impl_view(res):
             'by_month': {k: v['total'] for k, v in j['by_month'].items()}}
 
 
-def model_input(budget):
+def model_input(budget, with_settings=False):
     """Build the `pipeline` op from the budget using the implementation's own config loader and tokeniser
     (rows after tokenisation, as in C05); float()/strptime answers are filled by CPython on demand."""
     from tally import config_loader, parsers, merchant_engine as ME
@@ -867,9 +868,97 @@ def model_input(budget):
             rb['legacy'] = legacy_book(mf, rb['mode'])     # merchant_categories.csv: the tuple loop (Pipeline.classifyLegacy)
             if rb['legacy'] is None:
                 return None
-        return {'sources': sources, 'rulebook': rb, 'supp': [[k, exprs.val_json(v, True)] for k, v in supp.items()]}
+        out = {'sources': sources, 'rulebook': rb, 'supp': [[k, exprs.val_json(v, True)] for k, v in supp.items()]}
+        if with_settings:
+            try:
+                out['_from_settings'] = settings_case(cfgdir, config, rb, out['supp'])
+            except CC.Unmodelled:
+                out['_from_settings'] = None
+        return out
     finally:
         shutil.rmtree(d, ignore_errors=True)
+
+
+def settings_case(cfgdir, config, rb, supp_json):
+    """The `pipeline` op STARTING AT THE SETTINGS OBJECT (PipelineCfg.upFromSettings): the object `load_settings` returns (yaml.safe_load is the
+    trusted parser), what exists on disk at the paths the model may ask about, the TEXT of the statement files as `open(p, 'r',
+    encoding='utf-8')` yields it (None: it raises) and, for `regex:` delimiters, what `pattern.match` returns line by line.  Which sources are
+    parsed, with which format / delimiter / header / decimal / sign settings, under which rule mode and with which rules file is decided by the
+    MODEL (Config.resolveConfig / planSources / readArgs); the rulebook shipped is the one the implementation's loader selected, and the model
+    must select the same file."""
+    import re
+    from tally import config_loader
+    loaded = config_loader.load_settings(cfgdir)
+    budget_dir = os.path.dirname(cfgdir)
+    cands, files, regex = set(), [], []
+    cands.add(os.path.join(cfgdir, 'merchant_categories.csv'))
+    srcs = loaded.get('data_sources') if isinstance(loaded, dict) else None
+    for k in ('merchants_file', 'views_file'):
+        if isinstance(loaded, dict) and isinstance(loaded.get(k), str):
+            cands.add(os.path.join(budget_dir, loaded[k]))
+    texts = {}
+    for sdef in (srcs if isinstance(srcs, list) else []):
+        if not (isinstance(sdef, dict) and isinstance(sdef.get('file'), str)):
+            continue
+        for p in (os.path.normpath(os.path.join(cfgdir, '..', sdef['file'])), os.path.join(budget_dir, sdef['file'])):
+            cands.add(p)
+            if p not in texts and os.path.exists(p):
+                try:
+                    with open(p, 'r', encoding='utf-8') as f:
+                        texts[p] = f.read()
+                except (OSError, UnicodeError):
+                    texts[p] = None
+            dl = sdef.get('delimiter')
+            if isinstance(dl, str) and dl.startswith('regex:') and texts.get(p) is not None:
+                entry = next((x for x in regex if x[0] == dl), None)
+                if entry is None:
+                    try:
+                        re.compile(dl[6:])
+                        entry = [dl, []]
+                    except re.error:
+                        entry = [dl, None]
+                    regex.append(entry)
+                if entry[1] is None:
+                    continue
+                pat = re.compile(dl[6:])
+                for line in texts[p].split('\n'):          # (the same pattern may serve several files: one table per pattern, every line of every file)
+                    st = line.strip()
+                    if st and not any(x[0] == st for x in entry[1]):
+                        m = pat.match(st)
+                        entry[1].append([st, None if m is None else ['' if g is None else g for g in m.groups()]])
+    vf = [os.path.join(budget_dir, loaded['views_file'])] if isinstance(loaded, dict) and isinstance(loaded.get('views_file'), str) else []
+    return {'settings': CC.y_json(loaded), 'cfgdir': cfgdir, 'ext': CC.ext_of(loaded), 'quiet': True,
+            'exists': [[p, os.path.exists(p)] for p in sorted(cands)], 'views_ok': [[p, CC.views_outcome(p)] for p in vf if os.path.exists(p)],
+            'files': [[p, t] for p, t in sorted(texts.items())], 'regex': regex, 'floats': [], 'dates': [],
+            'rulebook': rb, 'supp': supp_json, 'rulebook_from': {'path': config.get('_merchants_file'), 'format': config.get('_merchants_format')}}
+
+
+def fill_settings_oracles(cases):
+    """demand-driven float() / strptime tables for the settings-driven cases, via the `misses` of the `pipeline` op"""
+    drv = common.Driver()
+    for _ in range(8):
+        todo = [c for c in cases if c is not None]
+        if not todo:
+            return
+        outs = drv.batch([dict(c, op='pipeline', oracle=[]) for c in todo])
+        progress = False
+        for c, o in zip(todo, outs):
+            for m in o.get('misses', []):
+                if m[0] == 'float':
+                    progress = True
+                    try:
+                        c['floats'].append([m[1], common.float_bits(float(m[1]))])
+                    except ValueError:
+                        c['floats'].append([m[1], None])
+                elif m[0] == 'strptime':
+                    progress = True
+                    try:
+                        c['dates'].append([m[1], m[2], datetime.datetime.strptime(m[2], m[1]).isoformat()])
+                    except ValueError:
+                        c['dates'].append([m[1], m[2], None])
+                # 'file' / 'regex' / 'regexline': a question the harness did not foresee - left open, the case then disagrees (reported)
+        if not progress:
+            return
 
 
 def legacy_book(path, mode):
@@ -1173,7 +1262,10 @@ def neutral_oracle(r, budget, whole):
 
 
 def run(ctx):
-    lo = common.lean_phase(ctx, 'TallyVerif.Props.C11')
+    def regen_fn(st):
+        regen.regen_fmt_tables(st)          # Model/Config reuses C18's parse_format_string model, written over Gen/FmtTables
+        regen.regen_config_tables(st)       # the constants of load_config / resolve_source_format / cmd_run (Gen/ConfigTables)
+    lo = common.lean_phase(ctx, 'TallyVerif.Props.C11', regen_fn)
     r = ctx.rng
     n = 80 if ctx.quick else 2500
     if ctx.replay:
@@ -1190,7 +1282,7 @@ def run(ctx):
     mcases, midx = [], []
     for i, b in enumerate(budgets):
         try:
-            mi = model_input(b)
+            mi = model_input(b, with_settings=True)
         except Exception as e:
             mi = None
             ctx.notes.setdefault('model_input_errors', []).append(f'{type(e).__name__}: {e}'[:120])
@@ -1198,12 +1290,47 @@ def run(ctx):
             mcases.append(mi); midx.append(i)
     unmodelled = 0
     modelled_kinds = {}
+    scases = [m.pop('_from_settings', None) for m in mcases]
+    corr_fail_settings, settings_stat = [], {'budgets': 0, 'model_declines': 0, 'stops_before_the_loop': 0, 'planned_calls': 0, 'by_delimiter_reading': {},
+                                             'header_skipped': 0, 'eu_decimals': 0, 'negated': 0, 'rule_mode_most_specific': 0, 'agree_with_generator_truth_path': 0}
     if mcases:
         fill_csv_oracles(mcases)
         for c in mcases:
             for s in c['sources']:
                 s.pop('_fmt', None)
         outs = exprs.model_eval(mcases, op='pipeline')
+        # the SAME budgets through the model FROM THE SETTINGS OBJECT (Config.resolveConfig -> planSources -> readArgs -> C05 tokeniser and row
+        # parser -> classification -> totals); the per-source parameters above (taken from the generated settings by the harness) stay as cross-check
+        fill_settings_oracles(scases)
+        sidx = [k for k, c in enumerate(scases) if c is not None]
+        souts = dict(zip(sidx, exprs.model_eval([scases[k] for k in sidx], op='pipeline'))) if sidx else {}
+        for k, (i, o_old) in enumerate(zip(midx, outs)):
+            so = souts.get(k)
+            if so is None:
+                continue
+            if so.get('err') == 'unmodelled':
+                settings_stat['model_declines'] += 1
+                continue
+            settings_stat['budgets'] += 1
+            for pc in so.get('plan', []):
+                settings_stat['planned_calls'] += 1
+                rd = pc.get('read', {})
+                dk = 'error' if 'err' in rd else 'regex' if rd.get('delim') == 'regex' else 'comma' if rd.get('delim') == ',' else 'other character'
+                settings_stat['by_delimiter_reading'][dk] = settings_stat['by_delimiter_reading'].get(dk, 0) + 1
+                settings_stat['header_skipped'] += bool(rd.get('has_header'))
+                settings_stat['eu_decimals'] += bool(rd.get('eu'))
+                settings_stat['negated'] += bool(rd.get('negate'))
+            settings_stat['rule_mode_most_specific'] += so.get('mode') == 'most_specific'
+            settings_stat['stops_before_the_loop'] += 'stop' in so
+            mv = {'no_report': True} if 'stop' in so else model_view(so)
+            iv = impl_view(impls[i])
+            if close(mv, iv):
+                settings_stat['agree_with_generator_truth_path'] += close(mv, {'no_report': True} if o_old.get('err') else model_view(o_old)) or o_old.get('err') == 'unmodelled'
+            else:
+                diff = [kk for kk in set(mv) | set(iv) if not close(mv.get(kk), iv.get(kk))]
+                corr_fail_settings.append({'differs_in': diff, 'model_from_settings': {kk: mv.get(kk) for kk in diff}, 'implementation': {kk: iv.get(kk) for kk in diff},
+                                           'model_answer': {kk: so.get(kk) for kk in ('stop', 'cls', 'err', 'why', 'misses', 'model_selects', 'rulebook_from', 'plan')},
+                                           'budget': budgets[i]})
         for i, o in zip(midx, outs):
             if o.get('err') == 'unmodelled':
                 unmodelled += 1
@@ -1234,6 +1361,26 @@ def run(ctx):
                    cases=len(pats), error=json.dumps(shape_fail[0])[:600] if shape_fail else None)
     ctx.obligation('correspondence:python -m tally up (fresh process) vs the composed Lean pipeline', 'correspondence', not corr_fail,
                    cases=len(mcases) - unmodelled, error=json.dumps(corr_fail[0], default=str)[:2500] if corr_fail else None)
+    ctx.obligation('correspondence:python -m tally up (fresh process) vs PipelineCfg.upFromSettings (the model starts at the loaded settings object)',
+                   'correspondence', not corr_fail_settings, cases=settings_stat['budgets'],
+                   error=json.dumps(corr_fail_settings[0], default=str)[:3000] if corr_fail_settings else None)
+    ctx.notes['pipeline_from_settings'] = settings_stat
+    # settings resolution on its own: load_config / cmd_run's plan / the reader's view of the arguments / posixpath vs Model/Config
+    cres, cstats, cprop, cfinding = CC.run_streams(ctx)
+    for name, label in (('load', 'config_loader.load_config-vs-Config.resolveConfig'), ('plan', 'commands.run.cmd_run (parser calls observed)-vs-Config.planSources'),
+                        ('read', 'parsers._iter_rows_with_delimiter + parse_amount (argument values)-vs-Config.readArgs'),
+                        ('paths', 'posixpath.join / dirname / normpath-vs-Config.pjoin2 / dirname / normpath'), ('truthy', 'bool()-vs-Config.Y.truthy')):
+        fl, ncases = cres[name]
+        ctx.obligation('correspondence:' + label, 'correspondence', not fl, cases=ncases, error=json.dumps(fl[0], default=str)[:2500] if fl else None)
+    ctx.notes['settings_resolution'] = cstats
+    ctx.cov['evaluations_settings_resolution'] = cstats.get('cases', 0)
+    prop_fail.extend(cprop)
+    # finding F11-name (a source without `name:` kills a run without --quiet): PROPOSED, not listed.  Its witnesses are handed to the verdict only once
+    # known_findings.json lists it (then: KNOWN-FINDING while the defect is there, silence once it is repaired); until then the input class "verbose run,
+    # ordinary source without a name key" is EXCLUDED from the property oracle and only counted (coverage.settings_resolution.F11_name_*)
+    if any(f.get('id') == 'F11-name' for f in ctx.findings_for()):
+        prop_fail.extend(cfinding)
+    ctx.notes['F11_name_witnesses_excluded_from_the_verdict'] = 0 if any(f.get('id') == 'F11-name' for f in ctx.findings_for()) else len(cfinding)
     nor = 0
     with ThreadPoolExecutor(max_workers=8) as ex:
         sel = [i for i in range(len(budgets)) if (ctx.replay or i % (2 if ctx.quick else 3) == 0)]
@@ -1288,7 +1435,18 @@ def run(ctx):
                        'exports carry (spaces, [ ] ( ) # & \' + , % ~ $ { } ; = @ ! : ", non-ASCII NFC / NFD, leading dot / dash, * ? [..], '
                        'case, nested / other / unnormalised directories, YAML-looking names) or a sibling of a name already used (other case; one '
                        'character as ?, a span as *, a character as [c]; " (1)" copy), all distinct as literal paths with different contents '
-                       '(counts by class in coverage.source_file_names). Non-trivial = ≥ 2 readable data files and ≥ 2 merchants in the report')
+                       '(counts by class in coverage.source_file_names). Non-trivial = ≥ 2 readable data files and ≥ 2 merchants in the report. '
+                       'Every budget also runs through the model FROM THE LOADED SETTINGS OBJECT (coverage.pipeline_from_settings). '
+                       'Settings-resolution streams (coverage.settings_resolution; drawn after everything else): 10 hand-written settings files in user spellings '
+                       '(yes/no, "false", "\\t", flow style, anchors + merge keys, an empty file), structured mostly-valid settings objects (1-4 sources: format / '
+                       'type amex|boa in any letter case / both / neither, Mode-2 formats with columns.description, every reader setting absent / of the documented '
+                       'type / of another type, supplemental, unknown and misspelt keys, keys in any order, file names relative / ./ // .. / through a symbolic link / '
+                       'absolute / outside the budget / missing, rule_mode, merchants_file and views_file configured & there / configured & missing / falsy / of '
+                       'another type, with or without the legacy CSV, removed settings) and a hostile stream (null values, wrong types everywhere, data_sources '
+                       'null / [] / {} / a mapping / a string / a number / true, entries that are not mappings, the same source twice, removed keys, '
+                       'description_cleaning of every type, settings that are a list / a scalar / empty); each through load_config and through cmd_run in-process '
+                       'with and without --quiet (parser entry points wrapped by the harness). Non-trivial there (coverage.settings_resolution.nontrivial) = ≥ 2 '
+                       'sources resolved, ≥ 1 parser call, and a source skipped or read with a non-default setting')
     fs = {}
     for b in budgets:
         for x in b.get('states', []):
@@ -1360,7 +1518,9 @@ def run(ctx):
         ctx.sample({'settings': b['files']['config/settings.yaml'], 'files': sorted(b['files']), 'file_states': b.get('states')})
 
     def search():
-        out = []
+        out = CC.search(ctx)            # settings resolution: fresh settings objects through load_config / cmd_run, implementation-only oracles
+        if out:
+            return out
         for i in range(150):
             b = (gen_tagged_budget(r) if i % 3 == 1 else gen_legacy_budget(r) if i % 3 == 2 else
                  gen_budget(r, focus='damaged-supplemental' if i % 6 == 3 else 'odd-cell-supplemental' if i % 6 == 0 else None))
@@ -1370,7 +1530,10 @@ def run(ctx):
                 break
         return out
 
-    common.conclude(ctx, prop_fail, search=search,
+    def classify(pf):
+        return 'F11-name' if pf.get('class') == 'nameless-source-stops-the-run-without-quiet' else None
+
+    common.conclude(ctx, prop_fail, classify=classify, search=search,
                     required='the report contains exactly the transactions of all non-supplemental sources, each read with its own settings and '
                              'classified by the configured rules; changing one source or setting changes only its share; a missing or unreadable source '
                              '(ordinary or supplemental) leaves the others intact and does not stop the run; `file:` names exactly one file, '
@@ -1378,9 +1541,19 @@ def run(ctx):
                              'delimiter like any other); the readable rows of a supplemental file are available to the rules whatever another row or '
                              'cell contains; '
                              'a transaction carries the tags of every rule row that matches it (legacy CSV or .rules), its amount lands in the figure those '
-                             'tags say, and a tag view selects the merchants that carry the tag')
+                             'tags say, and a tag view selects the merchants that carry the tag; '
+                             'settings: every parsed source is handed ITS OWN delimiter / has_header / decimal_separator / negate_amount / name as written, exactly '
+                             'the ordinary sources whose file is there are parsed, in order, only `most_specific` selects that mode, a configured-but-missing '
+                             'merchants_file is not replaced by the legacy CSV, and editing one source or one top-level key leaves the parser calls of all other '
+                             'sources unchanged')
     return ctx.finish(extra_trusted=[
-        'PARTIAL: argparse, YAML loading, path resolution and JSON printing are exercised end to end but not modelled',
+        'PARTIAL: argparse and JSON printing are exercised end to end but not modelled; yaml.safe_load is a trusted parser (the loaded settings object is the '
+        "model's input); settings resolution (load_config, resolve_source_format, cmd_run's choice of parser calls and their arguments, path resolution) IS "
+        'modelled (Model/Config.lean) and tied by the load / plan / read / paths streams and by the end-to-end stream that starts at the settings object',
+        'Gen/ConfigTables.lean (removed keys, rule modes, defaults, legacy CSV name, special parser types, the keys read) is regenerated from config_loader.py / '
+        'format_parser.py / commands/run.py / parsers.py on every run (translator harness/translate/config_tables.py)',
+        'parameters of the settings model: os.path.exists, the outcome of section_engine.load_sections on the views file (modelled in C10/C17), the rows of '
+        'the deprecated parse_amex / parse_boa, the loading of the selected rules file and of the supplemental tables (implementation), CPython non-ASCII text primitives (Ext)',
         'tokenisation (csv.reader / regex) is taken from the implementation, as in C05',
         'legacy-CSV rule budgets: the file is loaded by the implementation (csv.DictReader + parse_pattern_with_modifiers, as C14), the tuples are '
         'classified by the model (Pipeline.classifyLegacy); float rounding of `amount - v` in [amount=v] is modelled away (as C14); money figures to the cent',
